@@ -190,6 +190,16 @@ def body(c, stats: Stats):
         for i in names:
             if not (objs[i] == objs[i]):
                 _fail(c, '== is not reflexive on %s' % gens.show_sugared(c[i]), 'eq-refl')
+        # objects derived from one another by instantiate share notation bodies (object identity): identity and
+        # non-identity instantiations must still compare by expansion, in both orders
+        for i in 'ab':
+            for k in sorted(R.metavars(exps[i]))[:2] + [7]:
+                for val_t, val_e in ((R.MV(k), R.MV(k)), (R.E(k % 3), R.E(k % 3))):
+                    der = objs[i].instantiate({k: R.to_repo(val_t)})
+                    want = R.instantiate(exps[i], {k: val_e}) == exps[i]
+                    if (objs[i] == der) != want or (der == objs[i]) != want:
+                        _fail(c, '%s compared with itself instantiated by {%d: %s}: implementation says %s / reversed %s, expansions are %s'
+                              % (gens.show_sugared(c[i]), k, R.show(val_e), objs[i] == der, der == objs[i], 'equal' if want else 'different'), 'eq-instantiated')
         for i in names:
             for j in names:
                 if i >= j: continue
